@@ -1290,10 +1290,10 @@ def dropout(a, p=0.5, training=True, inplace=False):
 @handles("batch_norm")
 def batch_norm(x, running_mean, running_var, weight=None, bias=None, training=False, momentum=0.1, eps=1e-5):
     X = lift(x)
-    if X.a.ndim != 2:
-        raise NotModelled("batch_norm on non-2D input")
     if X.a.size and isinstance(X.a.reshape(-1)[0], TS):
         return Sym(_ew(lambda s: s, X.a))  # per-feature affine map / per-feature statistics: taints stay per unit
+    if X.a.ndim != 2:
+        raise NotModelled("batch_norm on non-2D input")
     if training:
         raise NotModelled("batch_norm in training mode on real-valued symbols")
     out = (X - lift(running_mean)) / (lift(running_var) + eps).sqrt()
@@ -1822,3 +1822,24 @@ def full_like2(a, fill_value, **kw):
     else:
         s = S.of(v)
     return Sym(_full(A.shape, s))
+
+
+@handles("conv2d")
+def conv2d(x, weight, bias=None, stride=1, padding=0, dilation=1, groups=1):
+    """taint domain only: a convolution mixes the elements of one batch item, never two items."""
+    X = lift(x).a
+    if not (X.size and isinstance(X.reshape(-1)[0], TS)):
+        raise NotModelled("conv2d on real-valued symbols")
+    W = lift(weight).a
+    n, c, hh, ww = X.shape
+    o, _, kh, kw = W.shape
+    st = (stride, stride) if isinstance(stride, int) else tuple(stride)
+    pd = (padding, padding) if isinstance(padding, int) else tuple(padding)
+    dl = (dilation, dilation) if isinstance(dilation, int) else tuple(dilation)
+    oh = (hh + 2 * pd[0] - dl[0] * (kh - 1) - 1) // st[0] + 1
+    ow = (ww + 2 * pd[1] - dl[1] * (kw - 1) - 1) // st[1] + 1
+    out = np.empty((n, o, oh, ow), dtype=object)
+    for i in range(n):
+        j = _taint_join(list(X[i].reshape(-1)))
+        out[i].fill(j)
+    return Sym(out)
